@@ -6,6 +6,16 @@ VERIF = os.path.dirname(os.path.abspath(__file__))
 
 # property id -> (level category, technique, level text, level note, design ref)
 CLAIMED = {
+    "C10": ("fault_enumeration",
+            "harness-as-transport: enumerated and random interleaving/loss/duplication schedules of labelled real fragments fed to fresh real reassembly instances; payload-identity oracle",
+            "Fragments captured from real fragswarm/mbapp senders are fed to a fresh destination instance per schedule: all interleavings x drop-one x duplicate-one for pairs of small messages, random shuffles with loss/duplication for all messages, at inner MTUs 40/64/100/1000; every delivered payload must be one sent payload of the sender Src names, messages with a never-fed fragment must not appear; also multi-part ask replies under perturbation and reply/tell group-id coincidences.",
+            "Missing deliveries are not judged; sender restarts re-using message ids are outside the quantifier.",
+            "DESIGN.md §4 C10"),
+    "C11": ("exploration",
+            "request/response ledger: responses derived from (request id, invocation number, secret) compared at the asker; parked-goroutine detector for asks whose context ended before any handler began",
+            "On every ask-capable stack 2-16 concurrent askers ask two serving nodes and one that never serves, with derived/negative/slow/oversize handlers, four context plans and a destination closed mid-run; success must carry exactly the bytes of one non-negative invocation for that very request; handlers must see the request bytes and the asker's address.",
+            "Asks whose handler had begun when the context ended are not judged for promptness (hub commit point); ssh context handling is an open known finding; QUIC-over-UDP and deeper nestings in thorough only.",
+            "DESIGN.md §4 C11"),
     "C09": ("exploration",
             "boundary-length workload per stack configuration with a ledger at the receiver and an MTU-error recorder under the layer under test",
             "For ~150 stack configurations (inner MTUs 1..65536, outer MTUs at/around the 255- and 65535-part limits, every multiplexer header length, unequal multi-transport MTUs, nestings; QUIC/SSH in thorough) tells and asks of lengths 0,1,MTU-1,MTU and fragment-count boundaries must not be refused for size by any layer and arrive byte-identical, while MTU+1 and 2*MTU must be refused with the MTU error and never arrive even in part.",
